@@ -43,7 +43,7 @@ def check_one(rec, seed, opts):
     info = {'outcome': b.outcome, 'kinds': kinds_label(b), 'carriers': sorted(set(b.carriers.values()))}
     detail = {'rec': rec, 'seed': seed, 'opts': opts, 'hashseed': os.environ.get('PYTHONHASHSEED'),
               'outcome': b.outcome, 'exc': repr(b.exc), 'kinds': b.kinds, 'carriers': b.carriers,
-              'decoy': getattr(b, 'decoy', None), 'elsewhere': repr(getattr(b, 'elsewhere', None))[:80], 'via_factory': getattr(b, 'via_factory', None)}
+              'decoy': getattr(b, 'decoy', None), 'shared_type': getattr(b, 'shared_type', None), 'elsewhere': repr(getattr(b, 'elsewhere', None))[:80], 'via_factory': getattr(b, 'via_factory', None)}
     if b.outcome == 'ok':
         if 'ok' not in allowed:
             why = 'conflict' if rec['conflict'] else ('malformed' if rec['bad']['k'] != 'none' else 'unresolved')
@@ -80,12 +80,20 @@ def check_one(rec, seed, opts):
     scen = [('main', 'GET', False, (1, 2, 3)), ('main', 'GET', True, (1, 2)),
             ('null', 'GET', False, (1, 2)), ('main', 'POST', False, None)]
     b.app.error_handler.reraise_uncaught = True
-    for which, method, epresp, phases in scen:
+    via = [False] * len(scen)
+    if not isinstance(getattr(b, 'elsewhere', None), (str, type(None))):
+        # the same request through the unrelated parent the application was ALSO mounted into (the parent defines no
+        # resources of its own: what the functions receive must still be the embedded application's)
+        b.elsewhere.error_handler.reraise_uncaught = True
+        scen = scen + [('main', 'GET', False, (1, 2, 3))]
+        via = via + [True]
+    for (which, method, epresp, phases), via_parent in zip(scen, via):
         real_which = which if method == 'GET' else 'null'     # POST to a GET-only route -> catch-all (405)
         if phases is None:
             phases = (1, 2)
-        status, err, obs, dup, body = injectlib.run_request(b, which, method=method, ep_returns_response=epresp)
-        d2 = dict(detail, scenario=[which, method, epresp], status=status, error=repr(err),
+        status, err, obs, dup, body = injectlib.run_request(b, which, method=method, ep_returns_response=epresp,
+                                                            via_parent=via_parent)
+        d2 = dict(detail, scenario=[which, method, epresp] + (['via-parent'] if via_parent else []), status=status, error=repr(err),
                   observed=dict(('%d:%d' % k, v) for k, v in obs.items()))
         if err is not None:
             msg = str(err)
